@@ -39,7 +39,7 @@ func (e *Encoder) writeCollection(c orb.Collection, srid int) error {
 	}
 
 	for _, geom := range c {
-		err := e.Encode(geom, 0)
+		err := e.encode(geom, 0)
 		if err != nil {
 			return err
 		}
